@@ -571,6 +571,19 @@ class World:
                 return False
         return True
 
+    def committed_unfired_towards(self, dst):
+        """a source device whose MPF state is `ejecting` towards dst while the simulated coil has not been pulsed yet"""
+        m = self.run.vm.machine
+        for s_, t in self.topo.items():
+            if s_ == dst or t.get("exit") != dst or s_ not in m.ball_devices:
+                continue
+            dev = m.ball_devices[s_]
+            cur = dev.outgoing_balls_handler._current_target
+            if dev.state == "ejecting" and cur is not None and cur.name == dst and self.kick[s_] is None and \
+                    not any(x["src"] == s_ for x in self.transit):
+                return True
+        return False
+
     # -- player / physics actions
     def move_loose_to(self, dst):
         """a loose ball rolls into a device (drain, lock shot); returns False when physically impossible"""
@@ -584,6 +597,12 @@ class World:
             # MPF then retries while the first ball may still arrive (reported as a finding, not generated here)
             return False
         if self.timing.get("strict_capture") and not self.timing.get("ambiguous") and not self.capture_allowed():
+            return False
+        if not self.timing.get("ambiguous") and self.committed_unfired_towards(dst):
+            # a source has passed its readiness check for an eject towards dst (state "ejecting") but has not fired yet - it
+            # waits for its own count lock in BallCountHandler.start_eject().  A ball rolling into dst in that window is
+            # not counted there before the pulse (switch settle time): MPF cannot know (the code's own TODO "block one spot in
+            # target device"); same class as D16 - directed witness, not generated here
             return False
         if self.topo[dst].get("entrance") and (self.entr_state[dst] is not None or self.now() < self.entr_clear.get(dst, 0.0)):
             return False                # the entrance is occupied by the previous ball: this shot bounces off (stays loose)
@@ -1488,6 +1507,11 @@ def classify_fired_full(ff, p, obs, history):
         return "misattributed:entry-during-own-eject"
     if p["topo"] == "two_src" and set(ff["heading_from"]) - {src}:
         return "fired-into-full-device:two-sources"
+    committed = [o[0] for o in obs if o[1] == "state" and o[2] == src and o[3] == "ejecting" and o[0] <= ff["t"]]
+    if committed and not det and any(h[1] == "entered" and h[2] == tgt and h[4] == "pf" and committed[-1] <= h[0] <= ff["t"]
+                                     for h in history):
+        # a ball rolled from the playfield into the target after the source had passed its readiness check and before it fired
+        return "fired-into-full-device:entry-between-readiness-check-and-pulse"
     return "fired-into-full-device"
 
 
